@@ -49,7 +49,15 @@ func raceBinary() (string, string) {
 			return
 		}
 		all := strings.Split(strings.TrimSpace(string(names)), ",")
-		out, err := exec.Command(raceBin, "-seq", "-g", strconv.Itoa(len(all)), "-ops", strings.Join(all, ",")).Output()
+		bctx, bcancel := context.WithTimeout(context.Background(), 180*time.Second)
+		defer bcancel()
+		out, err := exec.CommandContext(bctx, raceBin, "-seq", "-g", strconv.Itoa(len(all)), "-ops", strings.Join(all, ",")).Output()
+		if err != nil && bctx.Err() != nil {
+			// not a broken check: the library blocked while its calls were made one after the other
+			raceBaseHung = strings.Join(all, ",")
+			raceBase = map[string]string{}
+			return
+		}
 		if err != nil {
 			raceBinErr = "race rig baseline failed: " + err.Error()
 			return
@@ -64,6 +72,8 @@ func raceBinary() (string, string) {
 	})
 	return raceBin, raceBinErr
 }
+
+var raceBaseHung string
 
 // race.run <g> <procs> <seed> <ops>
 func raceRun(a []string) (string, []string) {
@@ -161,6 +171,11 @@ func runC19(r *Runner) string {
 		os.Exit(2)
 	}
 	_ = bin
+	if raceBaseHung != "" {
+		r.addFailure(Failure{Kind: "property", Op: "race.run", Args: []string{"1", "1", "0", raceBaseHung}, Go: "hang",
+			Detail: "the actions run one after the other in ONE goroutine did not finish within 180 s: a call blocked for good (a lock that is not released on some path); the same sequence finishes in seconds on a tree where the property holds", Tag: "sequential-baseline"}, false)
+		return "sequential baseline of the race rig"
+	}
 	namesOut, _ := exec.Command(raceBin, "-list").Output()
 	all := strings.Split(strings.TrimSpace(string(namesOut)), ",")
 	sort.Strings(all)
